@@ -65,6 +65,8 @@
        with the operands exchanged), C08_is_disjoint_lawful + C08_disjoint_truth.
    * operands unchanged: a and b are parameters of pure functions and are not
      returned; `stable w w'` in every theorem says nothing else is touched.
+     (Structural only; the contentful statement, on the interpreter's
+     registers, is C08_algebra_ops_keep_registers at the end of this file.)
    * size_hint brackets the number of items still to come, at every stage:
        C08_diff_hint_brackets, C08_inter_hint_brackets, C08_union_hint_brackets,
        C08_symdiff_hint_brackets — for EVERY cursor/chain inside the operand
@@ -83,7 +85,10 @@
      C08_filter_next_lawful for Difference/Intersection, but for Union /
      SymmetricDifference the preservation of chain_ok is proved only in
      Safety3 (union_next_frame / symdiff_next_frame, every environment) and is
-     not restated here.
+     not restated here.  CLOSED in the AUDIT CLOSURE section at the end of this
+     file: C08_union_next_lawful / C08_symdiff_next_lawful, every prefix length
+     C08_union_run_steps / C08_symdiff_run_steps, and the hint taken from the
+     state reached after j calls of next(): C08_*_hint_stage.
    * `mem`, "mathematical result" and Uniq are all relative to the class
      function ck: for a lawful == this is ordinary set membership.
    * Everything here assumes `Lawful E ck cq`; what happens with unlawful
@@ -593,3 +598,516 @@ Example C08_example_runs :
   out (is_subset E a b w) = Some (false, [], new_map 0) /\
   out (is_disjoint E a b w) = Some (false, [], new_map 0).
 Proof. vm_compute. repeat split; reflexivity. Qed.
+
+(* ======================================================================== *)
+(* AUDIT CLOSURE (Proofs/MoreSet.v)
+
+   VOCABULARY ADDED
+     nsteps next j s        "call next() j times, whatever it answers; return the items yielded
+                            and THE STATE THE ITERATOR IS LEFT IN" (C08_nsteps_unfold).  Unlike
+                            filter_run / union_run / symdiff_run it does not stop at the first None
+                            and does not forget the state, so a size_hint can be taken afterwards.
+     filter_steps / union_steps / symdiff_steps   nsteps of the model's own next functions
+                            (C08_alg_steps_unfold).
+     filter_fold_gen F, siter_fold_gen F, union_fold_gen F, symdiff_fold_gen F
+                            the loops of filter_fold / siter_fold / union_fold / symdiff_fold
+                            (Model/SetOps.v) with an ARBITRARY accumulator function F in place of
+                            the closure "push the slot" the model's folds are specialised to
+                            (C08_fold_gen_unfold; C08_filter_fold_is_gen, C08_union_fold_is_gen,
+                            C08_symdiff_fold_is_gen: at F = push they ARE the model's folds).
+
+   4. "every prefix length of consumption" for Union / SymmetricDifference:
+        C08_union_next_lawful, C08_symdiff_next_lawful   one next(): yields the head of the pending
+                            list, the new chain is inside the operands (chain_ok) and its
+                            pending list is the tail;
+        C08_union_run_steps, C08_symdiff_run_steps   EVERY fuel j: the first j pending items
+                            (the counterpart of C08_filter_run_steps), from every chain inside the
+                            operands — in particular (C08_*_run_steps_init) from the chain the
+                            constructor returns.
+   5. size_hint "at every stage of consumption": after j calls of next() from any state inside the
+      operands, the hint computed FROM THE STATE THE MODEL'S next() LEFT brackets the number of items
+      still to come, i.e. (total - j) (natural subtraction: 0 once exhausted):
+        C08_diff_hint_stage, C08_inter_hint_stage, C08_union_hint_stage, C08_symdiff_hint_stage
+      (the conjunct `sel/items (snd r) = skipn j ...` says the pending list of the state reached is the
+       rest; C08_filter_steps_lawful is the underlying "state after j steps" fact.)
+   6. '-' operator: C08_set_sub_lawful_uniq adds: the result holds no two elements of one class
+      (NoDup), its classes are exactly those of a that are not classes of b, and the log grows by
+      exactly the clone events.
+   7. "the operands are left unchanged".  In the per-function theorems this is STRUCTURAL: a and b
+      are parameters of the model functions (shared borrows) and are not returned, so nothing could
+      change them; what those theorems do say is `stable w w'`: the surrounding container `self` and
+      the event log are untouched — no drop, no clone event — by every iterator step, fold and
+      predicate.  The contentful statement is at the level of the interpreter (Model/Exec.v), where
+      the operands live in registers:
+        C08_algebra_ops_keep_registers   SAlgebra (any adaptor, any number of steps, fold), SPred,
+                            SSub leave all four registers EXACTLY as they were, for every script
+                            (adversarial ==, panicking Clone/Drop included); only the callback state
+                            advances;
+        C08_algebra_ops_view   the ExecView instance: view after the step = vstep = the view before.
+   8. fold for an arbitrary pure accumulator function F and initial value:
+        C08_filter_fold_gen_lawful, C08_union_fold_gen_lawful, C08_symdiff_fold_gen_lawful
+                            fold F init = fold_left F (pending items) init
+        C08_filter_fold_gen_is_run, C08_union_fold_gen_is_run, C08_symdiff_fold_gen_is_run
+                            = fold_left F (the items stepping with next() yields) init.
+   9. Non-vacuity of HCK and a concrete '-' run: C08_example_HCK, C08_example_set_sub.        *)
+(* ======================================================================== *)
+Require Import Proofs.ExecSafe Proofs.ExecView Proofs.MoreSet.
+
+Theorem C08_nsteps_unfold :
+  forall (K T X St : Type) (next : St -> M K unit T (option X * St)),
+    (forall s : St, nsteps next 0 s = ret ([], s)) /\
+    (forall (j : nat) (s : St),
+        nsteps next (S j) s =
+        (x <- next s ;;
+         r <- nsteps next j (snd x) ;;
+         ret ((match fst x with Some it => [it] | None => [] end) ++ fst r, snd r))).
+Proof. exact (@nsteps_unfold). Qed.
+Print Assumptions C08_nsteps_unfold.
+
+Theorem C08_alg_steps_unfold :
+  forall (K Q T : Type) (E : env K unit Q T) (a b : map K unit) (want : bool),
+    filter_steps E a b want = nsteps (fun c : cursor => filter_next E a b want (cursor_len c) (fst c)) /\
+    union_steps E a b = nsteps (union_next E a b) /\
+    symdiff_steps E a b = nsteps (symdiff_next E a b).
+Proof. exact (@alg_steps_unfold). Qed.
+Print Assumptions C08_alg_steps_unfold.
+
+(* ---------------------------------------------------------------------- *)
+(* 4. Union / SymmetricDifference: one step, every prefix length            *)
+(* ---------------------------------------------------------------------- *)
+
+Theorem C08_union_next_lawful :
+  forall (K Q T : Type) (E : env K unit Q T) (ck : K -> N) (cq : Q -> N) (HL : Lawful E ck cq)
+         (a b : map K unit) (u : chain) (w : world K unit T),
+    WF a -> WF b -> chain_ok (len b) (len a) u ->
+    wp (union_next E a b u)
+       (fun (x : option (bool * nat) * chain) (w' : world K unit T) =>
+          stable w w' /\
+          chain_ok (len b) (len a) (snd x) /\
+          fst x = hd_error (union_items ck a b u) /\
+          union_items ck a b (snd x) = tl (union_items ck a b u))
+       (fun _ : world K unit T => False) w.
+Proof. exact (fun K Q T E ck cq HL => union_next_lawful E ck cq HL). Qed.
+Print Assumptions C08_union_next_lawful.
+
+Theorem C08_symdiff_next_lawful :
+  forall (K Q T : Type) (E : env K unit Q T) (ck : K -> N) (cq : Q -> N) (HL : Lawful E ck cq)
+         (a b : map K unit) (u : chain) (w : world K unit T),
+    WF a -> WF b -> chain_ok (len a) (len b) u ->
+    wp (symdiff_next E a b u)
+       (fun (x : option (bool * nat) * chain) (w' : world K unit T) =>
+          stable w w' /\
+          chain_ok (len a) (len b) (snd x) /\
+          fst x = hd_error (symdiff_items ck a b u) /\
+          symdiff_items ck a b (snd x) = tl (symdiff_items ck a b u))
+       (fun _ : world K unit T => False) w.
+Proof. exact (fun K Q T E ck cq HL => symdiff_next_lawful E ck cq HL). Qed.
+Print Assumptions C08_symdiff_next_lawful.
+
+Theorem C08_union_run_steps :
+  forall (K Q T : Type) (E : env K unit Q T) (ck : K -> N) (cq : Q -> N) (HL : Lawful E ck cq)
+         (a b : map K unit) (j : nat) (u : chain) (w : world K unit T),
+    WF a -> WF b -> chain_ok (len b) (len a) u ->
+    wp (union_run E a b j u)
+       (fun (r : list (bool * nat)) (w' : world K unit T) =>
+          stable w w' /\ r = firstn j (union_items ck a b u))
+       (fun _ : world K unit T => False) w.
+Proof. exact (fun K Q T E ck cq HL => union_run_steps E ck cq HL). Qed.
+Print Assumptions C08_union_run_steps.
+
+Theorem C08_symdiff_run_steps :
+  forall (K Q T : Type) (E : env K unit Q T) (ck : K -> N) (cq : Q -> N) (HL : Lawful E ck cq)
+         (a b : map K unit) (j : nat) (u : chain) (w : world K unit T),
+    WF a -> WF b -> chain_ok (len a) (len b) u ->
+    wp (symdiff_run E a b j u)
+       (fun (r : list (bool * nat)) (w' : world K unit T) =>
+          stable w w' /\ r = firstn j (symdiff_items ck a b u))
+       (fun _ : world K unit T => False) w.
+Proof. exact (fun K Q T E ck cq HL => symdiff_run_steps E ck cq HL). Qed.
+Print Assumptions C08_symdiff_run_steps.
+
+Theorem C08_union_run_steps_init :
+  forall (K Q T : Type) (E : env K unit Q T) (ck : K -> N) (cq : Q -> N) (HL : Lawful E ck cq)
+         (a b : map K unit) (j : nat) (w : world K unit T),
+    WF a -> WF b ->
+    wp (union_run E a b j (union_init a b))
+       (fun (r : list (bool * nat)) (w' : world K unit T) =>
+          stable w w' /\ r = firstn j (union_items ck a b (union_init a b)))
+       (fun _ : world K unit T => False) w.
+Proof. exact (fun K Q T E ck cq HL => union_run_steps_init E ck cq HL). Qed.
+Print Assumptions C08_union_run_steps_init.
+
+Theorem C08_symdiff_run_steps_init :
+  forall (K Q T : Type) (E : env K unit Q T) (ck : K -> N) (cq : Q -> N) (HL : Lawful E ck cq)
+         (a b : map K unit) (j : nat) (w : world K unit T),
+    WF a -> WF b ->
+    wp (symdiff_run E a b j (symdiff_init a b))
+       (fun (r : list (bool * nat)) (w' : world K unit T) =>
+          stable w w' /\ r = firstn j (symdiff_items ck a b (symdiff_init a b)))
+       (fun _ : world K unit T => False) w.
+Proof. exact (fun K Q T E ck cq HL => symdiff_run_steps_init E ck cq HL). Qed.
+Print Assumptions C08_symdiff_run_steps_init.
+
+(* ---------------------------------------------------------------------- *)
+(* 5. size_hint at every stage                                              *)
+(* ---------------------------------------------------------------------- *)
+
+Theorem C08_filter_steps_lawful :
+  forall (K Q T : Type) (E : env K unit Q T) (ck : K -> N) (cq : Q -> N) (HL : Lawful E ck cq)
+         (a b : map K unit) (want : bool) (j : nat) (c : cursor) (w : world K unit T),
+    WF a -> WF b -> (fst c <= snd c /\ snd c <= len a) ->
+    wp (filter_steps E a b want j c)
+       (fun (r : list nat * cursor) (w' : world K unit T) =>
+          stable w w' /\
+          (fst (snd r) <= snd (snd r) /\ snd (snd r) <= len a) /\
+          fst r = firstn j (sel ck a b want (fst c) (cursor_len c)) /\
+          sel ck a b want (fst (snd r)) (cursor_len (snd r)) =
+          skipn j (sel ck a b want (fst c) (cursor_len c)))
+       (fun _ : world K unit T => False) w.
+Proof. exact (fun K Q T E ck cq HL => filter_steps_lawful E ck cq HL). Qed.
+Print Assumptions C08_filter_steps_lawful.
+
+Theorem C08_diff_hint_stage :
+  forall (K Q T : Type) (E : env K unit Q T) (ck : K -> N) (cq : Q -> N) (HL : Lawful E ck cq)
+         (a b : map K unit) (j : nat) (c : cursor) (w : world K unit T),
+    WF a -> WF b -> Uniq ck (Spec.elems a) -> Uniq ck (Spec.elems b) ->
+    (fst c <= snd c /\ snd c <= len a) ->
+    wp (filter_steps E a b false j c)
+       (fun (r : list nat * cursor) (w' : world K unit T) =>
+          stable w w' /\
+          fst r = firstn j (sel ck a b false (fst c) (cursor_len c)) /\
+          sel ck a b false (fst (snd r)) (cursor_len (snd r)) =
+          skipn j (sel ck a b false (fst c) (cursor_len c)) /\
+          fst (diff_size_hint b (snd r))
+            <= length (sel ck a b false (fst c) (cursor_len c)) - j
+            <= snd (diff_size_hint b (snd r)))
+       (fun _ : world K unit T => False) w.
+Proof. exact (fun K Q T E ck cq HL => diff_hint_stage E ck cq HL). Qed.
+Print Assumptions C08_diff_hint_stage.
+
+Theorem C08_inter_hint_stage :
+  forall (K Q T : Type) (E : env K unit Q T) (ck : K -> N) (cq : Q -> N) (HL : Lawful E ck cq)
+         (a b : map K unit) (j : nat) (c : cursor) (w : world K unit T),
+    WF a -> WF b -> Uniq ck (Spec.elems a) -> Uniq ck (Spec.elems b) ->
+    (fst c <= snd c /\ snd c <= len a) ->
+    wp (filter_steps E a b true j c)
+       (fun (r : list nat * cursor) (w' : world K unit T) =>
+          stable w w' /\
+          fst r = firstn j (sel ck a b true (fst c) (cursor_len c)) /\
+          sel ck a b true (fst (snd r)) (cursor_len (snd r)) =
+          skipn j (sel ck a b true (fst c) (cursor_len c)) /\
+          fst (inter_size_hint b (snd r))
+            <= length (sel ck a b true (fst c) (cursor_len c)) - j
+            <= snd (inter_size_hint b (snd r)))
+       (fun _ : world K unit T => False) w.
+Proof. exact (fun K Q T E ck cq HL => inter_hint_stage E ck cq HL). Qed.
+Print Assumptions C08_inter_hint_stage.
+
+Theorem C08_union_hint_stage :
+  forall (K Q T : Type) (E : env K unit Q T) (ck : K -> N) (cq : Q -> N) (HL : Lawful E ck cq)
+         (a b : map K unit) (j : nat) (u : chain) (w : world K unit T),
+    WF a -> WF b -> Uniq ck (Spec.elems a) -> Uniq ck (Spec.elems b) ->
+    chain_ok (len b) (len a) u ->
+    wp (union_steps E a b j u)
+       (fun (r : list (bool * nat) * chain) (w' : world K unit T) =>
+          stable w w' /\
+          fst r = firstn j (union_items ck a b u) /\
+          union_items ck a b (snd r) = skipn j (union_items ck a b u) /\
+          fst (union_size_hint b (snd r))
+            <= length (union_items ck a b u) - j
+            <= snd (union_size_hint b (snd r)))
+       (fun _ : world K unit T => False) w.
+Proof. exact (fun K Q T E ck cq HL => union_hint_stage E ck cq HL). Qed.
+Print Assumptions C08_union_hint_stage.
+
+Theorem C08_symdiff_hint_stage :
+  forall (K Q T : Type) (E : env K unit Q T) (ck : K -> N) (cq : Q -> N) (HL : Lawful E ck cq)
+         (a b : map K unit) (j : nat) (u : chain) (w : world K unit T),
+    WF a -> WF b -> Uniq ck (Spec.elems a) -> Uniq ck (Spec.elems b) ->
+    chain_ok (len a) (len b) u ->
+    wp (symdiff_steps E a b j u)
+       (fun (r : list (bool * nat) * chain) (w' : world K unit T) =>
+          stable w w' /\
+          fst r = firstn j (symdiff_items ck a b u) /\
+          symdiff_items ck a b (snd r) = skipn j (symdiff_items ck a b u) /\
+          fst (symdiff_size_hint a b (snd r))
+            <= length (symdiff_items ck a b u) - j
+            <= snd (symdiff_size_hint a b (snd r)))
+       (fun _ : world K unit T => False) w.
+Proof. exact (fun K Q T E ck cq HL => symdiff_hint_stage E ck cq HL). Qed.
+Print Assumptions C08_symdiff_hint_stage.
+
+(* ---------------------------------------------------------------------- *)
+(* 6. '-' operator: no element repeated                                     *)
+(* (HCK: Clone yields a key of the same class and does not panic;           *)
+(*  satisfiable: C08_example_HCK)                                           *)
+(* ---------------------------------------------------------------------- *)
+
+Theorem C08_set_sub_lawful_uniq :
+  forall (K Q T : Type) (E : env K unit Q T) (debug : bool) (ck : K -> N) (cq : Q -> N)
+         (HL : Lawful E ck cq)
+         (HCK : forall (s : T) (k : K), exists (k' : K) (s' : T),
+                   cloneK E s k = (Some k', s') /\ ck k' = ck k)
+         (a b : map K unit) (w : world K unit T),
+    WF a -> WF b -> Uniq ck (Spec.elems a) ->
+    WF (self w) -> len (self w) = 0 -> cap (self w) = cap a ->
+    wp (set_sub E debug a b)
+       (fun (_ : unit) (w' : world K unit T) =>
+          WF (self w') /\
+          cap (self w') = cap a /\
+          List.map (fun p : K * unit => ck (fst p)) (Spec.elems (self w')) =
+          List.map (fun p : K * unit => ck (fst p))
+                   (filter (fun p : K * unit => negb (mem ck b (fst p))) (Spec.elems a)) /\
+          NoDup (List.map (fun p : K * unit => ck (fst p)) (Spec.elems (self w'))) /\
+          (forall c : N,
+              In c (List.map (fun p : K * unit => ck (fst p)) (Spec.elems (self w'))) <->
+              In c (List.map (fun p : K * unit => ck (fst p)) (Spec.elems a)) /\
+              ~ In c (List.map (fun p : K * unit => ck (fst p)) (Spec.elems b))) /\
+          log w' =
+          log w ++ flat_map (fun p : K * unit => List.map EvCloneK (idK E (fst p)))
+                            (filter (fun p : K * unit => negb (mem ck b (fst p))) (Spec.elems a)))
+       (fun _ : world K unit T => False) w.
+Proof. exact (fun K Q T E debug ck cq HL HCK => set_sub_lawful_uniq E debug ck cq HL HCK). Qed.
+Print Assumptions C08_set_sub_lawful_uniq.
+
+(* ---------------------------------------------------------------------- *)
+(* 7. operands unchanged, at the level of the interpreter                   *)
+(*    regs x = (xm0 x, xm1 x, xs0 x, xs1 x): the four registers;            *)
+(*    WFx x: the four registers are well-formed and no UB has happened.     *)
+(* ---------------------------------------------------------------------- *)
+
+Theorem C08_algebra_ops_keep_registers :
+  forall (debug : bool) (sc : script) (o : op) (x : xworld),
+    WFx x ->
+    match o with SAlgebra _ _ _ _ _ | SPred _ _ _ | SSub _ _ => True | _ => False end ->
+    (xm0 (snd (step debug sc o x)), xm1 (snd (step debug sc o x)),
+     xs0 (snd (step debug sc o x)), xs1 (snd (step debug sc o x))) = (xm0 x, xm1 x, xs0 x, xs1 x) /\
+    xdead (snd (step debug sc o x)) = false.
+Proof. exact algebra_ops_keep_registers. Qed.
+Print Assumptions C08_algebra_ops_keep_registers.
+
+Theorem C08_algebra_ops_view :
+  forall (debug : bool) (sc : script) (o : op) (x : xworld),
+    WFx x ->
+    match o with SAlgebra _ _ _ _ _ | SPred _ _ _ | SSub _ _ => True | _ => False end ->
+    view_x (snd (step debug sc o x)) = vstep o (view_x x) /\ vstep o (view_x x) = view_x x.
+Proof. exact (fun debug sc o x Hx Ho => conj (algebra_ops_view debug sc o x Hx Ho) (vstep_algebra_id o _ Ho)). Qed.
+Print Assumptions C08_algebra_ops_view.
+
+(* ---------------------------------------------------------------------- *)
+(* 8. fold with an arbitrary accumulator function                           *)
+(* ---------------------------------------------------------------------- *)
+
+Theorem C08_fold_gen_unfold :
+  forall (K Q T : Type) (E : env K unit Q T) (A : Type) (F : A -> nat -> A) (G : A -> bool * nat -> A)
+         (a b : map K unit) (want : bool),
+    (forall (lo : nat) (acc : A), filter_fold_gen E F a b want 0 lo acc = ret acc) /\
+    (forall (n lo : nat) (acc : A),
+        filter_fold_gen E F a b want (S n) lo acc =
+        match nth_error (slots a) lo with
+        | Some (Some (k, _)) =>
+            inb <- contains_in E b k ;;
+            filter_fold_gen E F a b want n (S lo) (if Bool.eqb inb want then F acc lo else acc)
+        | _ => ub
+        end) /\
+    (forall (lo : nat) (acc : A), siter_fold_gen (T := T) F b 0 lo acc = ret acc) /\
+    (forall (n lo : nat) (acc : A),
+        siter_fold_gen (T := T) F b (S n) lo acc =
+        match nth_error (slots b) lo with
+        | Some (Some _) => siter_fold_gen F b n (S lo) (F acc lo)
+        | _ => ub
+        end) /\
+    (forall (u : chain) (init : A),
+        union_fold_gen E G a b u init =
+        (acc <- match front u with
+                | Some c => siter_fold_gen (fun x i => G x (true, i)) b (cursor_len c) (fst c) init
+                | None => ret init
+                end ;;
+         filter_fold_gen E (fun x i => G x (false, i)) a b false (cursor_len (back u)) (fst (back u)) acc)) /\
+    (forall (u : chain) (init : A),
+        symdiff_fold_gen E G a b u init =
+        (acc <- match front u with
+                | Some c => filter_fold_gen E (fun x i => G x (false, i)) a b false (cursor_len c) (fst c) init
+                | None => ret init
+                end ;;
+         filter_fold_gen E (fun x i => G x (true, i)) b a false (cursor_len (back u)) (fst (back u)) acc)).
+Proof. exact (fun K Q T E A => @fold_gen_unfold K Q T E A). Qed.
+Print Assumptions C08_fold_gen_unfold.
+
+Theorem C08_filter_fold_is_gen :
+  forall (K Q T : Type) (E : env K unit Q T) (a b : map K unit) (want : bool) (n lo : nat)
+         (acc : list nat) (w : world K unit T),
+    filter_fold E a b want n lo acc w =
+    filter_fold_gen E (fun (x : list nat) (i : nat) => x ++ [i]) a b want n lo acc w.
+Proof. exact (@filter_fold_is_gen). Qed.
+Print Assumptions C08_filter_fold_is_gen.
+
+Theorem C08_union_fold_is_gen :
+  forall (K Q T : Type) (E : env K unit Q T) (ck : K -> N) (cq : Q -> N) (HL : Lawful E ck cq)
+         (a b : map K unit) (u : chain) (w1 w2 : world K unit T),
+    WF a -> WF b -> chain_ok (len b) (len a) u ->
+    wp (union_fold E a b u)
+       (fun (r : list (bool * nat)) (_ : world K unit T) =>
+          wp (union_fold_gen E (fun (x : list (bool * nat)) (it : bool * nat) => x ++ [it]) a b u [])
+             (fun (r' : list (bool * nat)) (_ : world K unit T) => r' = r)
+             (fun _ : world K unit T => False) w2)
+       (fun _ : world K unit T => False) w1.
+Proof. exact (fun K Q T E ck cq HL => union_fold_is_gen E ck cq HL). Qed.
+Print Assumptions C08_union_fold_is_gen.
+
+Theorem C08_symdiff_fold_is_gen :
+  forall (K Q T : Type) (E : env K unit Q T) (ck : K -> N) (cq : Q -> N) (HL : Lawful E ck cq)
+         (a b : map K unit) (u : chain) (w1 w2 : world K unit T),
+    WF a -> WF b -> chain_ok (len a) (len b) u ->
+    wp (symdiff_fold E a b u)
+       (fun (r : list (bool * nat)) (_ : world K unit T) =>
+          wp (symdiff_fold_gen E (fun (x : list (bool * nat)) (it : bool * nat) => x ++ [it]) a b u [])
+             (fun (r' : list (bool * nat)) (_ : world K unit T) => r' = r)
+             (fun _ : world K unit T => False) w2)
+       (fun _ : world K unit T => False) w1.
+Proof. exact (fun K Q T E ck cq HL => symdiff_fold_is_gen E ck cq HL). Qed.
+Print Assumptions C08_symdiff_fold_is_gen.
+
+Theorem C08_filter_fold_gen_lawful :
+  forall (K Q T : Type) (E : env K unit Q T) (ck : K -> N) (cq : Q -> N) (HL : Lawful E ck cq)
+         (A : Type) (F : A -> nat -> A) (a b : map K unit) (want : bool) (n lo : nat) (acc : A)
+         (w : world K unit T),
+    WF a -> WF b -> lo + n <= len a ->
+    wp (filter_fold_gen E F a b want n lo acc)
+       (fun (r : A) (w' : world K unit T) => stable w w' /\ r = fold_left F (sel ck a b want lo n) acc)
+       (fun _ : world K unit T => False) w.
+Proof. exact (fun K Q T E ck cq HL A => filter_fold_gen_lawful E ck cq HL (A := A)). Qed.
+Print Assumptions C08_filter_fold_gen_lawful.
+
+Theorem C08_union_fold_gen_lawful :
+  forall (K Q T : Type) (E : env K unit Q T) (ck : K -> N) (cq : Q -> N) (HL : Lawful E ck cq)
+         (A : Type) (F : A -> bool * nat -> A) (a b : map K unit) (u : chain) (init : A)
+         (w : world K unit T),
+    WF a -> WF b -> chain_ok (len b) (len a) u ->
+    wp (union_fold_gen E F a b u init)
+       (fun (r : A) (w' : world K unit T) => stable w w' /\ r = fold_left F (union_items ck a b u) init)
+       (fun _ : world K unit T => False) w.
+Proof. exact (fun K Q T E ck cq HL A => union_fold_gen_lawful E ck cq HL (A := A)). Qed.
+Print Assumptions C08_union_fold_gen_lawful.
+
+Theorem C08_symdiff_fold_gen_lawful :
+  forall (K Q T : Type) (E : env K unit Q T) (ck : K -> N) (cq : Q -> N) (HL : Lawful E ck cq)
+         (A : Type) (F : A -> bool * nat -> A) (a b : map K unit) (u : chain) (init : A)
+         (w : world K unit T),
+    WF a -> WF b -> chain_ok (len a) (len b) u ->
+    wp (symdiff_fold_gen E F a b u init)
+       (fun (r : A) (w' : world K unit T) => stable w w' /\ r = fold_left F (symdiff_items ck a b u) init)
+       (fun _ : world K unit T => False) w.
+Proof. exact (fun K Q T E ck cq HL A => symdiff_fold_gen_lawful E ck cq HL (A := A)). Qed.
+Print Assumptions C08_symdiff_fold_gen_lawful.
+
+Theorem C08_filter_fold_gen_is_run :
+  forall (K Q T : Type) (E : env K unit Q T) (ck : K -> N) (cq : Q -> N) (HL : Lawful E ck cq)
+         (A : Type) (F : A -> nat -> A) (a b : map K unit) (want : bool) (c : cursor) (init : A)
+         (w1 w2 : world K unit T),
+    WF a -> WF b -> fst c <= snd c -> snd c <= len a ->
+    wp (filter_run E a b want (S (cursor_len c)) c)
+       (fun (r : list nat) (_ : world K unit T) =>
+          wp (filter_fold_gen E F a b want (cursor_len c) (fst c) init)
+             (fun (r' : A) (_ : world K unit T) => r' = fold_left F r init)
+             (fun _ : world K unit T => False) w2)
+       (fun _ : world K unit T => False) w1.
+Proof. exact (fun K Q T E ck cq HL A => filter_fold_gen_is_run E ck cq HL (A := A)). Qed.
+Print Assumptions C08_filter_fold_gen_is_run.
+
+Theorem C08_union_fold_gen_is_run :
+  forall (K Q T : Type) (E : env K unit Q T) (ck : K -> N) (cq : Q -> N) (HL : Lawful E ck cq)
+         (A : Type) (F : A -> bool * nat -> A) (a b : map K unit) (u : chain) (init : A)
+         (w1 w2 : world K unit T),
+    WF a -> WF b -> chain_ok (len b) (len a) u ->
+    wp (union_run E a b
+          (S (S (match front u with Some c => cursor_len c | None => 0 end + cursor_len (back u)))) u)
+       (fun (r : list (bool * nat)) (_ : world K unit T) =>
+          wp (union_fold_gen E F a b u init)
+             (fun (r' : A) (_ : world K unit T) => r' = fold_left F r init)
+             (fun _ : world K unit T => False) w2)
+       (fun _ : world K unit T => False) w1.
+Proof. exact (fun K Q T E ck cq HL A => union_fold_gen_is_run E ck cq HL (A := A)). Qed.
+Print Assumptions C08_union_fold_gen_is_run.
+
+Theorem C08_symdiff_fold_gen_is_run :
+  forall (K Q T : Type) (E : env K unit Q T) (ck : K -> N) (cq : Q -> N) (HL : Lawful E ck cq)
+         (A : Type) (F : A -> bool * nat -> A) (a b : map K unit) (u : chain) (init : A)
+         (w1 w2 : world K unit T),
+    WF a -> WF b -> chain_ok (len a) (len b) u ->
+    wp (symdiff_run E a b
+          (S (S (match front u with Some c => cursor_len c | None => 0 end + cursor_len (back u)))) u)
+       (fun (r : list (bool * nat)) (_ : world K unit T) =>
+          wp (symdiff_fold_gen E F a b u init)
+             (fun (r' : A) (_ : world K unit T) => r' = fold_left F r init)
+             (fun _ : world K unit T => False) w2)
+       (fun _ : world K unit T => False) w1.
+Proof. exact (fun K Q T E ck cq HL A => symdiff_fold_gen_is_run E ck cq HL (A := A)). Qed.
+Print Assumptions C08_symdiff_fold_gen_is_run.
+
+(* ---------------------------------------------------------------------- *)
+(* 9. non-vacuity                                                           *)
+(* ---------------------------------------------------------------------- *)
+
+(* HCK of C08_set_sub_lawful / C08_set_sub_lawful_uniq holds for the honest script's environment *)
+Example C08_example_HCK :
+  let sc0 := {| sc_adv := false; sc_seed := 0; sc_fk := 0; sc_fa := 0 |} in
+  forall (s : cstate) (k : key), exists (k' : key) (s' : cstate),
+    cloneK (env_set sc0) s k = (Some k', s') /\ kcls k' = kcls k.
+Proof. intros sc0. apply env_set_cloneK. split; reflexivity. Qed.
+
+(* &a - &b on the operands of C08_example_hyps, run with self = Set::new() of a's capacity 4:
+   the result holds one element, a fresh clone (id 100) of a's element of class 6; exactly
+   one clone event (of the element with id 2); nothing is dropped *)
+Example C08_example_set_sub :
+  let a : map key unit :=
+    {| len := 3; slots := [Some ({| kid := 1; kcls := 5 |}, tt); Some ({| kid := 2; kcls := 6 |}, tt);
+                           Some ({| kid := 3; kcls := 7 |}, tt); None] |} in
+  let b : map key unit :=
+    {| len := 3; slots := [Some ({| kid := 4; kcls := 7 |}, tt); Some ({| kid := 5; kcls := 9 |}, tt);
+                           Some ({| kid := 6; kcls := 5 |}, tt)] |} in
+  let E := env_set {| sc_adv := false; sc_seed := 0; sc_fk := 0; sc_fa := 0 |} in
+  let w : world key unit cstate :=
+    {| cb := {| n_eq := 0; n_clone := 0; n_call := 0; next_id := 100 |}; log := []; self := new_map 4 |} in
+  WF (self w) /\ len (self w) = 0 /\ cap (self w) = cap a /\
+  match set_sub E false a b w with
+  | Ok _ w' => Spec.elems (self w') = [({| kid := 100; kcls := 6 |}, tt)] /\ cap (self w') = 4 /\
+               log w' = [EvCloneK 2]
+  | _ => False
+  end.
+Proof.
+  intros a b E w. split; [apply WF_new|]. split; [reflexivity|]. split; [reflexivity|].
+  vm_compute. repeat split; reflexivity.
+Qed.
+
+(* stages of consumption on the same operands: after ONE next() of a.difference(b) the cursor
+   is (2,3), hint (0,1), and 1 - 1 = 0 items remain; after TWO next() of a.union(b) the chain
+   has front (2,3), hint (1,4), and 4 - 2 = 2 items remain; a generic fold (sum of the slot
+   numbers, +10 for items of b) over the union gives 34 = fold_left over the items yielded *)
+Example C08_example_stages :
+  let a : map key unit :=
+    {| len := 3; slots := [Some ({| kid := 1; kcls := 5 |}, tt); Some ({| kid := 2; kcls := 6 |}, tt);
+                           Some ({| kid := 3; kcls := 7 |}, tt); None] |} in
+  let b : map key unit :=
+    {| len := 3; slots := [Some ({| kid := 4; kcls := 7 |}, tt); Some ({| kid := 5; kcls := 9 |}, tt);
+                           Some ({| kid := 6; kcls := 5 |}, tt)] |} in
+  let E := env_set {| sc_adv := false; sc_seed := 0; sc_fk := 0; sc_fa := 0 |} in
+  let w : world key unit cstate :=
+    {| cb := {| n_eq := 0; n_clone := 0; n_call := 0; next_id := 100 |}; log := []; self := new_map 0 |} in
+  let out {A} (r : res key unit cstate A) : option A := match r with Ok x _ => Some x | _ => None end in
+  let F := fun (acc : nat) (it : bool * nat) => acc + snd it + (if fst it then 10 else 0) in
+  out (filter_steps E a b false 1 (0, 3) w) = Some ([1], (2, 3)) /\
+  diff_size_hint b (2, 3) = (0, 1) /\
+  out (union_steps E a b 2 (union_init a b) w)
+    = Some ([(true, 0); (true, 1)], {| front := Some (2, 3); back := (0, 3) |}) /\
+  union_size_hint b {| front := Some (2, 3); back := (0, 3) |} = (1, 4) /\
+  out (union_run E a b 2 (union_init a b) w) = Some [(true, 0); (true, 1)] /\
+  out (union_fold_gen E F a b (union_init a b) 0 w) = Some 34 /\
+  fold_left F [(true, 0); (true, 1); (true, 2); (false, 1)] 0 = 34.
+Proof. vm_compute. repeat split; reflexivity. Qed.
+
+(* the hypotheses of C08_algebra_ops_keep_registers are satisfiable *)
+Example C08_example_exec :
+  WFx (init_world 0 0 3 3) /\
+  match SSub 2 3 with SAlgebra _ _ _ _ _ | SPred _ _ _ | SSub _ _ => True | _ => False end.
+Proof. split; [apply init_WFx | exact I]. Qed.
